@@ -83,28 +83,37 @@ def run(ctx):
         if ctx.finding("fuzz/incomplete", "the fuzz run did not complete", {"tail": res[1][-1500:]}):
             new += 1
 
-    # (3) the known finding: a client that does not read its answers vs the canary
-    block = None
-    res, err = sc.run_harness(ctx, ["block"], timeout=300)
+    # (3) clients that do not read their answers vs the canary: every canary request must be answered within
+    #     (write deadline x stalled clients) + slack, in both scenarios (plain flood; stalled client with a subscription
+    #     on the node the canary keeps changing)
+    blocks = []
+    res, err = sc.run_harness(ctx, ["block"], timeout=600)
     for ln in (res[1].splitlines() if res else []):
         if ln.startswith("{"):
             try:
                 o = json.loads(ln)
                 if o.get("t") == "block":
-                    block = o
+                    blocks.append(o)
             except Exception:
                 pass
-    if block is None or block.get("err"):
-        detail["block"] = block or "no output"
-    elif block["canary_blocked"] or block["worst_ms"] > CANARY_BOUND_MS:
-        if ctx.finding("dispatcher-blocked-by-nonreading-client",
-                       "a client that sent %d Browse requests without reading the answers blocked the canary's Read (worst %.0f ms, baseline %.1f ms)" % (
-                           block["requests_sent"], block["worst_ms"], block["baseline_ms"]),
-                       {"observation": block, "how": "serverharness block"}):
+    if len(blocks) < 2 or any(b.get("err") for b in blocks):
+        detail["block"] = blocks or "no output"
+        if ctx.finding("block/incomplete", "the non-reading-client scenarios did not complete", {"observations": blocks, "tail": (res[1][-800:] if res else "")}):
             new += 1
-    elif not block.get("alive", True):
-        if ctx.finding("block/died", "the server died under a non-reading client", {"observation": block}):
-            new += 1
+    for b in blocks:
+        if b.get("err"):
+            continue
+        if b["canary_blocked"]:
+            if ctx.finding("dispatcher-blocked-by-nonreading-client",
+                           "scenario %s: a client that sent %d requests without reading the answers delayed the canary beyond the bound "
+                           "(worst %.0f ms, bound %.0f ms = write deadline %.0f ms x %d stalled client + slack; %s)" % (
+                               b["scenario"], b["requests_sent"], b["worst_ms"], b["bound_ms"], b["deadline_ms"], b["stalled_clients"],
+                               b.get("canary_error", "answered late")),
+                           {"observation": b, "how": "serverharness block"}):
+                new += 1
+        elif not b.get("alive", True):
+            if ctx.finding("block/died", "the server died under a non-reading client", {"observation": b}):
+                new += 1
 
     kinds = set()
     for h in hists:
@@ -115,13 +124,15 @@ def run(ctx):
         "rule": "(1) hostile request histories (NaN / zero / negative / huge publishing intervals, unknown and foreign ids, empty arrays, missing and "
                 "closed sessions, a server without endpoints) compared outcome by outcome with the model; (2) fuzzing client (generated field "
                 "values for every service, wrong tokens, malformed and truncated frames) + canary against a server in a child process: process "
-                "death = Panic, canary latency > %d ms = Hang; (3) non-reading client vs canary (known finding). "
+                "death = Panic, canary latency > %d ms = Hang; (3) non-reading clients (plain, and owning a subscription on a node that keeps changing) vs "
+                "canary: every canary request answered within write deadline x stalled clients + slack. "
                 "distinct = distinct (service, outcome kind, status) + distinct fuzzed request kinds" % CANARY_BOUND_MS,
         "histories": len(hists), "fuzz_cases": fuzz_cases, "fuzz_kinds": fuzz_kinds, "max_canary_ms": max_lat,
-        "nonreading_client": block,
+        "nonreading_client": blocks,
         "samples": [{"event": e["ev"], "outcome": e["out"]} for h in hists[:2] for e in h.evs[4:6]],
         "traces_validated_against_impl": len([h for h in hists if h.final is not None]),
         "model_impl_mismatches": len(bad),
     })
-    ctx.notes.append("latency is a run-time observation (canary), not a theorem; the theorems are about panics and the blocking write")
+    ctx.notes.append("handler computation time is a run-time observation (canary), not a theorem; the theorems are about panics and "
+                     "the bound number-of-stalled-clients x write deadline on what a reading client can be made to wait")
     ctx.conclude(proof_ok, corr_ok, new, detail)
